@@ -94,10 +94,11 @@ let run_wf (p : prog) =
         (ints r.wf_illegal) (ints r.wf_unknown) (strs r.wf_dup_labels) (strs r.wf_undefined))
     (List.rev p.funcs)
 
-(* @asmsel lines:  probe <id> <MN> <kind> <name-hex> <vtype> <const> <signed> <vmem> <size> <eight> <int> <high> <scheme> <prot> *)
+(* @asmsel lines:  probe <id> <MN> <kind> <name-hex> <vtype> <const> <signed> <vmem> <size> <addr|-> <eight> <int> <high> <scheme> <prot>
+   (<addr>: the known address of a constant-address object as a decimal integer, - for none) *)
 let run_asmsel_line (f : string list) =
   match f with
-  | id :: mn :: kind :: name :: vt :: c :: sg :: vm :: sz :: eb :: n :: hi :: sch :: prot :: _ ->
+  | id :: mn :: kind :: name :: vt :: c :: sg :: vm :: sz :: ad :: eb :: n :: hi :: sch :: prot :: _ ->
       (match mnem_of_name (explode mn) with
        | None -> Printf.printf "@sel %s bad\n" id
        | Some m ->
@@ -107,7 +108,8 @@ let run_asmsel_line (f : string list) =
                      v_const = (c = "1"); v_signed = (sg = "1");
                      v_mem = (match vm with "Zeropage" -> MZeropage | "Superchip" -> MSuperchip
                                            | "MemoryOnChip" -> MOnChip | _ -> MOther);
-                     v_size = z_of_int (int_of_string sz) } in
+                     v_size = z_of_int (int_of_string sz);
+                     v_addr = (if ad = "-" then None else Some (z_of_int (int_of_string ad))) } in
            let b x = (x = "1") in
            let z = z_of_int (int_of_string n) in
            let e = match kind with
